@@ -72,7 +72,8 @@ def motions(seed):
     if key not in _TABLES:
         rng = np.random.default_rng([int(seed), 4241])
         rots = cube_rotations() + generic_rotations(seed)
-        trans = [np.zeros(3), np.array([100.0, -50.0, 25.0]), rng.uniform(-3, 3, 3)]
+        trans = [np.zeros(3), np.array([100.0, -50.0, 25.0]), rng.uniform(-3, 3, 3),
+                 np.array([3000.0, -2000.0, 1000.0])]      # far corner of a large system box
         # index 0 is (identity-like first cube rotation, zero translation); all are proper motions
         _TABLES[key] = [(r, t) for r in rots for t in trans]
     return _TABLES[key]
@@ -301,11 +302,38 @@ class C08(Check):
                         R.violation(f'chi2/{path}/exception', d, repr(exc))
                         continue
                     R.case(d, nontrivial=want > 0)
-                    if not (rel_diff(v2, val) <= TOL_INV):
+                    # differences of coordinates shifted by T carry a relative error ~ eps*|T|/d
+                    if not (rel_diff(v2, val) <= max(TOL_INV, 4e-13 * float(np.abs(tr).max()))):
                         R.violation(f'chi2/{path}/changes-under-rigid-motion', d,
                                     f'original={val!r} moved={v2!r}')
                     elif v2 < 0:
                         R.violation(f'chi2/{path}/negative', d, v2)
+            # -- ONE calculator evaluated on a sequence of configurations: every value must equal the
+            #    reference whatever was evaluated before (the calculator caches masks at construction);
+            #    the sequence contains a configuration whose atoms coincide exactly with fixed atoms
+            if only in (None, 'seq') and e == combos[0][1]:
+                coinc = me.copy()
+                m = min(n1, n2)
+                coinc[:m] = fixed[:m]
+                order = [mobs[x] for x in range(N_CONSTR, N_CONSTR + N_EVAL)] + [coinc]
+                order = order + order[::-1] + [order[0]]
+                d = dict(base, sub='seq')
+                try:
+                    calc = Chi2Calculator(fixed.copy(), mc.copy(), [list(r) for r in restr])
+                    for step, cfg in enumerate(order):
+                        got = float(calc(cfg.copy()))
+                        sr2, sn2, k2, _ = ref_parts(fixed, cfg, restr)
+                        w2 = (sr2 + sn2) * 1.1 ** k2
+                        R.case(dict(d, step=step), nontrivial=True, cls=tag + '/sequence')
+                        if not np.isfinite(got) or got < 0:
+                            R.violation(f'chi2/{path}/sequence/negative-or-non-finite', d, f'step {step}: {got!r}')
+                            break
+                        if abs(got - w2) > TOL_REF * max(abs(w2), 1e-18):
+                            R.violation(f'chi2/{path}/sequence/differs-from-reference', d,
+                                        f'step {step} of one calculator: {got!r} vs reference {w2!r}')
+                            break
+                except Exception as exc:
+                    R.violation(f'chi2/{path}/exception', d, repr(exc))
             # -- consistent relabelling of atoms and restraints ---------------------
             if only in (None, 'perm'):
                 plist = [case['perm']] if 'perm' in case else perms
